@@ -40,10 +40,11 @@ const (
 	opRel              // release this thread's client handle
 	opPipeAsync        // the same pipelined call issued from a helper goroutine
 	opPipeLate         // ... issued by a helper goroutine once the base call's implementation has ended
+	opPipe2            // pipelined call on this thread's most recent *pipelined* answer, path [0]
 	nOps
 )
 
-var opNames = []string{"Call/return", "Call/ack+gate", "Call/gate-noack", "Call/ack+gate+error", "Call/ack+gate+cap", "Pipe[0]", "Release", "go Pipe[0]", "go Pipe[0] after base ended"}
+var opNames = []string{"Call/return", "Call/ack+gate", "Call/gate-noack", "Call/ack+gate+error", "Call/ack+gate+cap", "Pipe[0]", "Release", "go Pipe[0]", "go Pipe[0] after base ended", "Pipe[0] on the latest pipelined answer"}
 
 // keeper actions per gated call
 const (
@@ -230,6 +231,7 @@ func runProgram(p program, w *world, res [][]opResult, fin map[int]string) {
 	nThreads := len(p.threads) + 1
 	body := func(ti int) {
 		last := -1
+		lastPipe := -1
 		for pi, o := range p.threads[ti] {
 			opid := ti*10 + pi
 			r := &res[ti][pi]
@@ -245,13 +247,17 @@ func runProgram(p program, w *world, res [][]opResult, fin map[int]string) {
 				case opRel:
 					w.released[ti] = true
 					w.handles[ti].Release()
-				case opPipe, opPipeAsync, opPipeLate:
-					if last < 0 {
+				case opPipe, opPipeAsync, opPipeLate, opPipe2:
+					if last < 0 || (o == opPipe2 && lastPipe < 0) {
 						r.info = "nobase"
 						return
 					}
 					base := w.answers[last]
 					baseID := last
+					if o == opPipe2 {
+						base = w.pipeAns[lastPipe]
+						baseID = lastPipe
+					}
 					id := uint32(opid)
 					do := func() {
 						w.ev = append(w.ev, event{"pipestart", int(id), ""})
@@ -283,6 +289,7 @@ func runProgram(p program, w *world, res [][]opResult, fin map[int]string) {
 						})
 					} else {
 						do()
+						lastPipe = int(id)
 					}
 					r.info = "sent"
 				default:
@@ -503,7 +510,7 @@ func judge(p program, w *world, res [][]opResult, fin map[int]string, vr *vsched
 			f, has := fin[id]
 			switch {
 			case o == opRel:
-			case o == opPipe || o == opPipeAsync || o == opPipeLate:
+			case o == opPipe || o == opPipeAsync || o == opPipeLate || o == opPipe2:
 				base, ok := w.pipeBase[id]
 				if !ok {
 					continue
@@ -514,6 +521,15 @@ func judge(p program, w *world, res [][]opResult, fin map[int]string, vr *vsched
 				_, delivered := dpos[id]
 				bmode := w.mode[base]
 				bfin := fin[base]
+				if bmode >= opPipe {
+					// the base is itself a pipelined call: whatever it resolved to
+					// carries no capability (H answers with an error, or the call
+					// failed), so this call can only fail and must not reach H
+					if delivered || f == "ok" {
+						return "pipe-phantom", fmt.Sprintf("call %d pipelined on the pipelined call %d (result %q, no capability): delivered=%v result=%q", id, base, bfin, delivered, f)
+					}
+					continue
+				}
 				switch {
 				case bfin == "ok" && bmode == opCallP:
 					if !delivered || f != "H" {
@@ -616,6 +632,17 @@ func seqs(maxLen int) [][]int {
 			return
 		}
 		for o := 0; o < nOps; o++ {
+			if o == opPipe2 {
+				ok := false
+				for _, x := range cur {
+					if x == opPipe {
+						ok = true
+					}
+				}
+				if !ok {
+					continue
+				}
+			}
 			if o == opPipe || o == opPipeAsync || o == opPipeLate {
 				// needs an earlier call in this thread
 				ok := false
@@ -744,7 +771,7 @@ func programs(len0, len1 int, policies [][2]int, fullKeeper bool) []program {
 					if leave {
 						pipes := 0
 						for _, o := range threads[0] {
-							if o == opPipe || o == opPipeAsync || o == opPipeLate {
+							if o == opPipe || o == opPipeAsync || o == opPipeLate || o == opPipe2 {
 								pipes++
 							}
 						}
